@@ -173,9 +173,21 @@ Qed.
 
 (** * the last ACK remembered by the application data tracker is well-formed *)
 
+Lemma wfd_firstn : forall n l lo hi, wfd lo hi l -> wfd lo hi (firstn n l).
+Proof.
+  induction n as [| n IH]; intros l lo hi H; [exact I |].
+  destruct l as [| [s e] r]; [exact I |]. simpl in *. destruct H as (H1 & H2 & H3 & H4). auto.
+Qed.
+
+Lemma inR_firstn : forall n l q, inR q (firstn n l) -> inR q l.
+Proof.
+  intros n l q H. rewrite <- (firstn_skipn n l). apply inR_app. now left.
+Qed.
+
 Lemma step_lastAck : forall h o,
   tLastAck (aTr (hApp (fst (step h o)))) = tLastAck (aTr (hApp h)) \/
-  tLastAck (aTr (hApp (fst (step h o)))) = Some (backward (tHist (aTr (hApp h)))).
+  tLastAck (aTr (hApp (fst (step h o)))) = Some (backward (tHist (aTr (hApp h)))) \/
+  (exists n, tLastAck (aTr (hApp (fst (step h o)))) = option_map (firstn n) (tLastAck (aTr (hApp h)))).
 Proof.
   intros h o.
   destruct (step_app_cases h o) as
@@ -188,12 +200,13 @@ Proof.
     match goal with |- context [isMissing ?x pn] => destruct (isMissing x pn) end; [| reflexivity].
     match goal with |- context [if ?c then Some false else ?z] => destruct (if c then Some false else z) end;
       [exact Hla | reflexivity].
-  - right. rewrite Ha. unfold app_get_ack in *.
+  - right; left. rewrite Ha. unfold app_get_ack in *.
     destruct (only && negb (aAckQueued (hApp h)) && ((aAckAlarm (hApp h) =? 0) || (aAckAlarm (hApp h) >? now)));
       [discriminate |].
     unfold tr_get_ack in *. destruct (tHasNewAck (aTr (hApp h))); cbn [negb fst snd] in *; [reflexivity | discriminate].
   - (* every other call leaves the tracker's lastAck alone *)
-    left. destruct o as [pn ecn lvl t ae | p | lvl | lvl now only | pn lvl | |]; cbn [step] in *.
+    destruct o as [pn ecn lvl t ae | p | lvl | lvl now only | pn lvl | | | lvl n]; cbn [step] in *;
+      [left | left | left | left | left | left | left |].
     + unfold h_recv.
       assert (Happ : forall low,
         tLastAck (aTr (hApp (fst (let (a', r) := app_recv (hApp h) pn ecn t ae in
@@ -228,11 +241,17 @@ Proof.
     + reflexivity.
     + reflexivity.
     + reflexivity.
+    + cbn [fst]. unfold h_trunc.
+      destruct (lvl =? rph_EncInitial); [left; reflexivity |].
+      destruct (lvl =? rph_EncHandshake); [left; reflexivity |].
+      destruct (lvl =? rph_Enc1RTT); [| left; reflexivity].
+      right; right. exists (Z.to_nat n). reflexivity.
 Qed.
 
 Definition invL (tr : list (op * res)) (h : handler) : Prop :=
   invA tr h /\
-  forall la, tLastAck (aTr (hApp h)) = Some la -> exists lo hi, wfd lo hi la.
+  forall la, tLastAck (aTr (hApp h)) = Some la ->
+    (exists lo hi, wfd lo hi la) /\ (forall q, inR q la -> recvd tr 2 q).
 
 Lemma invL_init : invL [] newHandler.
 Proof. split; [apply invA_init |]. intros la H. discriminate. Qed.
@@ -240,9 +259,16 @@ Proof. split; [apply invA_init |]. intros la H. discriminate. Qed.
 Lemma invL_step : forall tr h o, invL tr h -> invL (tr ++ [(o, snd (step h o))]) (fst (step h o)).
 Proof.
   intros tr h o (HA & HL). split; [now apply invA_step |].
-  intros la Hla. destruct (step_lastAck h o) as [E | E]; rewrite E in Hla; [eauto |].
-  inversion Hla; subst la. destruct (HA 2%nat (tHist (aTr (hApp h))) eq_refl) as (((hi & Hwf) & _) & _).
-  exists (deletedBelow (tHist (aTr (hApp h))) - 1), hi. unfold backward. now apply wfa_wfd_rev.
+  intros la Hla. destruct (step_lastAck h o) as [E | [E | (n & E)]]; rewrite E in Hla.
+  - destruct (HL la Hla) as (Hw & Hs). split; [assumption |]. intros q Hq. apply recvd_app_l. auto.
+  - inversion Hla; subst la. destruct (HA 2%nat (tHist (aTr (hApp h))) eq_refl) as (((hi & Hwf) & _) & Hs).
+    split.
+    + exists (deletedBelow (tHist (aTr (hApp h))) - 1), hi. unfold backward. now apply wfa_wfd_rev.
+    + intros q Hq. apply recvd_app_l. apply Hs. unfold backward in Hq. now rewrite inR_rev in Hq.
+  - destruct (tLastAck (aTr (hApp h))) as [la0 |]; [| discriminate]. inversion Hla; subst la.
+    destruct (HL la0 eq_refl) as ((lo & hi & Hwf) & Hs). split.
+    + exists lo, hi. now apply wfd_firstn.
+    + intros q Hq. apply recvd_app_l. apply Hs. eapply inR_firstn; eauto.
 Qed.
 
 Lemma invL_run : forall ops, invL (trace newHandler ops) (fst (run newHandler ops)).
@@ -261,6 +287,6 @@ Lemma ack_queued_when_missing : forall ops pn ecn t la l,
   aAckQueued (fst (app_recv a pn ecn t true)) = true.
 Proof.
   intros ops pn ecn t la l a Hla Hl Hib Hpl Hn Hok.
-  destruct (invL_run ops) as (_ & HL). destruct (HL la Hla) as (lo & hi & Hwf).
+  destruct (invL_run ops) as (_ & HL). destruct (HL la Hla) as ((lo & hi & Hwf) & _).
   apply app_recv_missing; [assumption |]. eapply isMissing_true; eauto.
 Qed.
